@@ -76,7 +76,9 @@ def relations(kind: str, ind, snap: List[Dict]) -> Optional[Dict]:
             if xs is not None:
                 p = ind.period
                 w = xs[:i + 1] if kind in ("EMA", "RMA") else xs[max(0, i - p + 1):i + 1]
-                if not (min(w) - sl <= r <= max(w) + sl):
+                # SMA is updated incrementally from its own rounded reading: one rounding per candle accumulates
+                acc = (i + 1) * 0.5 * 10.0 ** (-rv) if kind == "SMA" else 0.0
+                if not (min(w) - sl - acc <= r <= max(w) + sl + acc):
                     return {"relation": "average-within-input-range"}
         if kind == "OBV" and prev is not None and abs(r - prev) not in (0, v):
             return {"relation": "OBV-step"}
